@@ -87,11 +87,12 @@ func init() {
 		LevelNote: "Trusts go/types and the analyser. Does not run go/parser on any dump.",
 		Technique: "static analysis: typed-AST event extraction over all dumper methods and helpers; per-path bracket/indent balance",
 		Engine:    "visitors",
-		Explanation: "dump-slots: frame `&ast.<Kind>{` … `},`, dumpPosition(n.Position) and one helper call per other field whose constant label equals the field name (Val for []byte) and whose helper matches the field type. dump-helpers: dumpToken/dumpPosition treat token.Token / position.Position like kinds (each field once under its own name, zero-valued ID/Value omitted), dumpVertex/dumpVertexList/dumpTokenList print the key and each element once in order, brackets in all emitted constants balance on every path (strconv.Quote output is one literal), the indent is restored, and only the token helpers read withTokens / only dumpPosition reads withPositions.",
+		Explanation: "dump-slots: frame `&ast.<Kind>{` … `},`, dumpPosition(n.Position) and one helper call per other field whose constant label equals the field name (Val for []byte) and whose helper matches the field type. dump-helpers: dumpToken/dumpPosition treat token.Token / position.Position like kinds (each field once under its own name, zero-valued ID/Value omitted), dumpVertex/dumpVertexList/dumpTokenList print the key and each element once in order, brackets in all emitted constants balance on every path (strconv.Quote output is one literal), the indent is restored, and only the token helpers read withTokens / only dumpPosition reads withPositions. token-names: the name table behind token.ID.String (which dumpToken prints after `token.`) names every constant of type token.ID by its own identifier (table agreement, String has the table-lookup shape).",
 		TrustedBase: baseTrusted,
 		Floors: []report.Floor{
 			{Rule: "dump-slots", What: "methods", Min: 155},
 			{Rule: "dump-helpers", What: "functions", Min: 160},
+			{Rule: "token-names", What: "constants", Min: 130},
 		},
 		Run: func(c *Ctx) {
 			c.visitorRule("dump-slots", visitors.DumpSlots)
@@ -110,6 +111,14 @@ func init() {
 			})
 			if p, tb, ok := c.RepoProgram(false); ok {
 				c.Add(visitors.DumpHelpers(p, tb))
+			}
+			c.Fixture("mini", "token-names", false, func(p *load.Program, tb *kinds.Table) *report.RuleResult {
+				r := small.TokenNames(p, "pkg/tokname", "ID")
+				r.Merge(small.TokenNames(p, "pkg/badtokname", "ID"), "bad:")
+				return r
+			})
+			if p, _, ok := c.RepoProgram(false); ok {
+				c.Add(small.TokenNames(p, "pkg/token", "ID"))
 			}
 		},
 	}
